@@ -79,7 +79,7 @@ def main(tier):
         frz = rng.random() < 0.75
         cases.append({"seed": ck.seed * 1000 + i, "dtype": dtype, "weights": w, "activations": a, "tree": tree, "input": inp, "calibrate": cal, "freeze": frz,
                       "optimizer": "clip" if frz and rng.random() < 0.25 else None, "streamline": stream,
-                      "load_from": [rng.choice(["pickle", "weights_only", "safetensors"])] if tier == "quick" else ["pickle", "weights_only", "safetensors"], "second_cycle": rng.random() < 0.5})
+                      "load_from": [rng.choice(["pickle", "weights_only", "safetensors"])] if tier == "quick" else ["pickle", "weights_only", "safetensors"], "second_cycle": rng.random() < 0.5, "no_grad_params": rng.random() < 0.35})
     # directed (F28): a calibrated half-precision model with a parameterless LayerNorm, reloaded
     cases.append({"seed": 21, "dtype": "float16", "weights": "qint4", "activations": "qfloat8", "calibrate": True, "freeze": True, "input": [2, 32], "load_from": ["pickle"], "second_cycle": False, "directed": "F28",
                   "tree": {"t": "seq", "ch": [{"t": "linear", "in": 32, "out": 16, "bias": True}, {"t": "ln", "shape": [16], "affine": False, "bias": False, "eps": 1e-5}, {"t": "linear", "in": 16, "out": 8, "bias": True}]}})
@@ -140,6 +140,9 @@ def main(tier):
             if t.get("first_state_dict_unchanged") is False or t.get("saved_model_unchanged") is False:
                 ck.violation("loading a second checkpoint into a model modified the first state_dict it had been loaded from (or the model that state_dict came from): storage shared by the first load is written through",
                              tctx)
+            if t["outputs_equal"] and t["state_equal"] and (t.get("requantize_twice_outputs_equal") is False or t.get("requantize_twice_state_equal") is False or t.get("requantize_twice_exn")):
+                ck.violation(f"requantize() of a target that had already been requantized from a checkpoint in the opposite state (frozen <-> not frozen) does not reproduce the saved model "
+                             f"({'frozen' if c['freeze'] else 'unfrozen'}, weights {c['weights']}): {t.get('requantize_twice_exn') or 'outputs / state differ'}", tctx)
             if not t["state_equal"]:
                 ck.violation(f"state_dict of the {how} model after loading differs from the saved one: {t['diff'][:3]}", tctx)
             if t["devices"] not in (["cpu"], []):
